@@ -168,7 +168,7 @@ func checkC02(c *vkit.Ctx) {
 		}
 		r := c.Rand("big", j)
 		api := []string{"ssnap", "ssnap", "sjson", "snap"}[r.IntN(4)]
-		size := []int{1<<20 + 5, 4<<20 + 1, 4<<20 + 12345, 5<<20 + 7, 8<<20 + 100, 8 << 20, 3<<20 + 17}[r.IntN(7)]
+		size := []int{1<<20 + 5, 4<<20 + 1, 4<<20 + 12345, 5<<20 + 7, 8<<20 + 100, 8 << 20, 3<<20 + 17}[(j+j/7)%7]
 		var sb strings.Builder
 		if api == "sjson" {
 			sb.WriteString("[")
@@ -187,7 +187,7 @@ func checkC02(c *vkit.Ctx) {
 		s := sb.String()
 		b := []byte(s)
 		var at int
-		switch r.IntN(4) {
+		switch j % 4 {
 		case 0:
 			at = len(b) - 3 // the last digit / letter
 		case 1:
